@@ -76,7 +76,10 @@ def _main() -> int:
             if args.head:
                 record_generator = islice(record_generator, args.lines)
             elif args.tail:
-                record_generator = reader.records(args.priority, offset=-args.lines)
+                # Not offset=-lines: -0 would select the whole log.
+                record_generator = reader.records(
+                    args.priority, offset=max(len(reader) - args.lines, 0)
+                )
 
             for record in record_generator:
                 record.colored = colored
